@@ -1,7 +1,8 @@
 CONSTANTS
-  MaxItems = 4
+  MaxItems = 3
   EmitOn = TRUE
   FullProduct = FALSE
+  ItemPool = "all"
 INIT Init
 NEXT Next
 INVARIANTS Refines DataModelOK Emit
